@@ -21,8 +21,12 @@
 //   * `#include` may only reach files of the sandbox directory the process runs in: an input in which the text "include"
 //     is followed, in a later `"..."` / `<...` span of the same line, by '/' or '~' is skipped (counted).  /dev/zero,
 //     /dev/stdin, /proc/... would make the run depend on the machine, not on OCCA.
+//   * bracket nesting deeper than C16_NEST_CAP, runs of more than C16_UNARY_CAP unary operator characters and macro
+//     definitions whose expansion is not bounded by a small number (see macroExpansionUnbounded) are skipped (counted):
+//     recursion depth = nesting depth in a recursive-descent parser, and a macro bomb is not an OCCA defect.
 //   * in-target exclusion of known findings by class (ids in VERIF_KNOWN):
-//       deep-nesting-stack-overflow : bracket nesting depth of the text above C16_NEST_CAP
+//       nested-attribute-exponential : attributes nested more than C16_ATTR_NEST_CAP deep in attribute arguments
+//       macro-mutual-recursion-hang  : a function-like macro on a cycle of the macro reference graph
 #include <occa.hpp>
 #include <occa/internal/io/output.hpp>
 #include <occa/internal/utils/env.hpp>
@@ -92,14 +96,20 @@ namespace occa {
 // ---- statistics (fixed-size storage only: an allocation that outlives one input makes libFuzzer run leak checks) ----
 enum { O_ACCEPT = 0, O_REJECT, O_THROW, O_COUNT };
 static const char *O_NAMES[O_COUNT] = {"accepted", "rejected(errors reported)", "rejected(occa::exception)"};
-enum { K_NEST = 0, K_COUNT };
-static const char *K_IDS[K_COUNT] = {"deep-nesting-stack-overflow"};
+enum { K_ATTRNEST = 0, K_MACROCYCLE, K_COUNT };
+static const char *K_IDS[K_COUNT] = {"nested-attribute-exponential", "macro-mutual-recursion-hang"};
+#ifndef C16_ATTR_NEST_CAP
+#define C16_ATTR_NEST_CAP 4
+#endif
+#ifndef C16_UNARY_CAP
+#define C16_UNARY_CAP 256
+#endif
 
 static long g_evals = 0;
 static long g_mode[M_COUNT][O_COUNT];
 static long g_stmt[2][O_COUNT];        // [statements parsed > 0][outcome]
 static long g_kind[2];                 // string source / file source
-static long g_nul = 0, g_empty = 0, g_incl = 0, g_diag = 0, g_launcher = 0;
+static long g_nul = 0, g_empty = 0, g_incl = 0, g_diag = 0, g_launcher = 0, g_nest = 0, g_unary = 0, g_macro = 0;
 static long g_known[K_COUNT];
 static bool g_knownOn[K_COUNT];
 static long g_diagChunks = 0;          // per input
@@ -145,6 +155,9 @@ static void dumpStats() {
   if (g_nul) fprintf(f, ",\"fuzz:input-cut-at-first-NUL\":%ld", g_nul);
   if (g_empty) fprintf(f, ",\"fuzz:empty-input(no selector)\":%ld", g_empty);
   if (g_incl) fprintf(f, ",\"fuzz:skipped(#include with a path separator)\":%ld", g_incl);
+  if (g_nest) fprintf(f, ",\"fuzz:skipped(bracket nesting deeper than %d)\":%ld", C16_NEST_CAP, g_nest);
+  if (g_unary) fprintf(f, ",\"fuzz:skipped(run of more than %d unary operator characters)\":%ld", C16_UNARY_CAP, g_unary);
+  if (g_macro) fprintf(f, ",\"fuzz:skipped(macro expansion bound)\":%ld", g_macro);
   fprintf(f, "},\"excluded\":{");
   first = true;
   for (int k = 0; k < K_COUNT; ++k)
@@ -184,6 +197,182 @@ static int nestingDepth(const char *s, size_t n) {
     else if ((c == ')' || c == ']' || c == '}') && d > 0) --d;
   }
   return mx;
+}
+
+
+// longest run of unary-operator characters (white space ignored): the expression tree of `----...1` is cloned once per
+// level (quadratic), 4000 of them take minutes under ASan
+static int unaryRun(const char *s, size_t n) {
+  int run = 0, mx = 0;
+  for (size_t i = 0; i < n; ++i) {
+    const char c = s[i];
+    if (c == '-' || c == '+' || c == '!' || c == '~' || c == '*' || c == '&') { if (++run > mx) mx = run; }
+    else if (c != ' ' && c != '\t' && c != '\n' && c != '\r') run = 0;
+  }
+  return mx;
+}
+
+static bool identStart(char c) { return (c >= 'a' && c <= 'z') || (c >= 'A' && c <= 'Z') || c == '_'; }
+static bool identChar(char c) { return identStart(c) || (c >= '0' && c <= '9'); }
+
+// depth of attributes nested in attribute arguments: @a(@b(@c(...)))
+static int attributeNesting(const char *s, size_t n) {
+  enum { MAXD = 512 };
+  static bool isAttr[MAXD];
+  int d = 0, ad = 0, mx = 0;
+  for (size_t i = 0; i < n; ++i) {
+    const char c = s[i];
+    if (c == '(') {
+      bool attr = false;
+      size_t j = i;
+      while (j > 0 && (s[j - 1] == ' ' || s[j - 1] == '\t' || s[j - 1] == '\n' || s[j - 1] == '\r')) --j;
+      size_t e = j;
+      while (j > 0 && identChar(s[j - 1])) --j;
+      if (j < e) {
+        while (j > 0 && (s[j - 1] == ' ' || s[j - 1] == '\t' || s[j - 1] == '\n' || s[j - 1] == '\r')) --j;
+        attr = (j > 0 && s[j - 1] == '@');
+      }
+      if (d < MAXD) isAttr[d] = attr;
+      ++d;
+      if (attr && ++ad > mx) mx = ad;
+    } else if (c == ')' && d > 0) {
+      --d;
+      if (d < MAXD && isAttr[d]) --ad;
+    }
+  }
+  return mx;
+}
+
+// ---- macro definitions of the text (every occurrence of the word "define", so that @directive("#define ...") counts) ----
+struct MacroDef { const char *name; int nameLen; bool functionLike; const char *body; int bodyLen; };
+enum { MAXMACROS = 64 };
+static MacroDef g_macros[MAXMACROS];
+static int g_macroCount = 0;
+static bool g_macroOverflow = false;
+
+static void collectMacros(const char *s, size_t n) {
+  g_macroCount = 0;
+  g_macroOverflow = false;
+  size_t i = 0;
+  while (i + 6 <= n) {
+    const char *q = (const char*) memmem(s + i, n - i, "define", 6);
+    if (!q) break;
+    size_t j = (size_t) (q - s) + 6;
+    i = j;
+    while (j < n && (s[j] == ' ' || s[j] == '\t')) ++j;
+    if (j >= n || !identStart(s[j])) continue;
+    MacroDef m;
+    m.name = s + j;
+    size_t k = j;
+    while (k < n && identChar(s[k])) ++k;
+    m.nameLen = (int) (k - j);
+    m.functionLike = (k < n && s[k] == '(');
+    if (m.functionLike) { while (k < n && s[k] != ')' && s[k] != '\n') ++k; if (k < n && s[k] == ')') ++k; }
+    m.body = s + k;
+    size_t e = k;
+    while (e < n) {
+      if (s[e] == '\n') {
+        size_t b = e;
+        while (b > k && s[b - 1] == '\r') --b;
+        if (!(b > k && s[b - 1] == '\\')) break;
+      }
+      ++e;
+    }
+    m.bodyLen = (int) (e - k);
+    if (g_macroCount < MAXMACROS) g_macros[g_macroCount++] = m; else g_macroOverflow = true;
+    i = k;
+  }
+}
+
+static int countIdent(const MacroDef &m, const char *name, int nameLen) {
+  int cnt = 0;
+  for (int i = 0; i < m.bodyLen; ) {
+    if (identStart(m.body[i]) && (i == 0 || !identChar(m.body[i - 1]))) {
+      int e = i;
+      while (e < m.bodyLen && identChar(m.body[e])) ++e;
+      if (e - i == nameLen && !memcmp(m.body + i, name, nameLen)) ++cnt;
+      i = e;
+    } else ++i;
+  }
+  return cnt;
+}
+
+// product over the definitions of the highest multiplicity of one identifier in the body, to the power of the
+// parenthesis depth of the text + 1: a (generous) bound on what the expansion can multiply
+static bool macroExpansionUnbounded(const char *s, size_t n) {
+  if (g_macroOverflow) return true;
+  double P = 1;
+  for (int a = 0; a < g_macroCount; ++a) {
+    const MacroDef &m = g_macros[a];
+    int R = 1;
+    for (int i = 0; i < m.bodyLen; ) {
+      if (identStart(m.body[i]) && (i == 0 || !identChar(m.body[i - 1]))) {
+        int e = i;
+        while (e < m.bodyLen && identChar(m.body[e])) ++e;
+        const int c = countIdent(m, m.body + i, e - i);
+        if (c > R) R = c;
+        i = e;
+      } else ++i;
+    }
+    P *= R;
+  }
+  if (P <= 1) return false;
+  int d = 0, D = 0;
+  for (size_t i = 0; i < n; ++i) { if (s[i] == '(') { if (++d > D) D = d; } else if (s[i] == ')' && d > 0) --d; }
+  double total = 1;
+  for (int i = 0; i <= D && total <= 1e6; ++i) total *= P;
+  return total > 1e6;
+}
+
+// a function-like macro on a cycle (of length >= 2) of the "body mentions" graph
+static bool macroCycleThroughFunctionLike() {
+  static bool edge[MAXMACROS][MAXMACROS];
+  const int N = g_macroCount;
+  for (int a = 0; a < N; ++a)
+    for (int b = 0; b < N; ++b)
+      edge[a][b] = countIdent(g_macros[a], g_macros[b].name, g_macros[b].nameLen) > 0;
+  // redefinitions: the same name twice = the same node
+  for (int a = 0; a < N; ++a)
+    for (int b = 0; b < N; ++b)
+      if (a != b && g_macros[a].nameLen == g_macros[b].nameLen && !memcmp(g_macros[a].name, g_macros[b].name, g_macros[a].nameLen))
+        for (int c = 0; c < N; ++c) { if (edge[b][c]) edge[a][c] = true; }
+  for (int f = 0; f < N; ++f) {
+    if (!g_macros[f].functionLike) continue;
+    bool seen[MAXMACROS] = {false};
+    int stack[MAXMACROS], sp = 0;
+    for (int x = 0; x < N; ++x) {
+      const bool sameName = (g_macros[x].nameLen == g_macros[f].nameLen && !memcmp(g_macros[x].name, g_macros[f].name, g_macros[f].nameLen));
+      if (edge[f][x] && !sameName && !seen[x]) { seen[x] = true; stack[sp++] = x; }
+    }
+    while (sp) {
+      const int x = stack[--sp];
+      for (int y = 0; y < N; ++y) {
+        if (!edge[x][y]) continue;
+        if (g_macros[y].nameLen == g_macros[f].nameLen && !memcmp(g_macros[y].name, g_macros[f].name, g_macros[f].nameLen)) return true;
+        if (!seen[y]) { seen[y] = true; stack[sp++] = y; }
+      }
+    }
+  }
+  return false;
+}
+
+// ---- crash signatures: UBSan messages carry values ("2147483647 + 1 cannot be represented ..."); print a value-free
+// line first (lib/v_fuzz.py takes VERIF-SIGNATURE when present) -----------------------------------------------------
+extern "C" void __ubsan_get_current_report_data(const char **OutIssueKind, const char **OutMessage, const char **OutFilename,
+                                                unsigned *OutLine, unsigned *OutCol, char **OutMemoryAddr);
+extern "C" void __ubsan_on_report(void) {
+  const char *kind = "", *msg = "", *file = "";
+  unsigned line = 0, col = 0;
+  char *addr = NULL;
+  __ubsan_get_current_report_data(&kind, &msg, &file, &line, &col, &addr);
+  const char *base = file ? strrchr(file, '/') : NULL;
+  base = base ? base + 1 : (file ? file : "?");
+  if (!strncmp(base, "primitive.", 10) && kind &&
+      (strstr(kind, "integer-overflow") || strstr(kind, "shift") || strstr(kind, "negat")))
+    fprintf(stderr, "VERIF-SIGNATURE: C16-ubsan integer overflow / invalid shift in constant folding (occa::primitive)\n");
+  else
+    fprintf(stderr, "VERIF-SIGNATURE: C16-ubsan %s @ %s:%u\n", kind ? kind : "?", base, line);
+  fflush(stderr);
 }
 
 static parser_t* makeParser(int mode) {
@@ -250,7 +439,12 @@ extern "C" int LLVMFuzzerTestOneInput(const uint8_t *data, size_t size) {
     if (nul) { ++g_nul; n = (size_t) ((const uint8_t*) nul - text); }
   }
   if (includeLeavesSandbox((const char*) text, n)) { ++g_incl; return 0; }
-  if (g_knownOn[K_NEST] && nestingDepth((const char*) text, n) > C16_NEST_CAP) { ++g_known[K_NEST]; return 0; }
+  if (nestingDepth((const char*) text, n) > C16_NEST_CAP) { ++g_nest; return 0; }
+  if (unaryRun((const char*) text, n) > C16_UNARY_CAP) { ++g_unary; return 0; }
+  collectMacros((const char*) text, n);
+  if (g_macroCount && macroExpansionUnbounded((const char*) text, n)) { ++g_macro; return 0; }
+  if (g_knownOn[K_MACROCYCLE] && g_macroCount > 1 && macroCycleThroughFunctionLike()) { ++g_known[K_MACROCYCLE]; return 0; }
+  if (g_knownOn[K_ATTRNEST] && attributeNesting((const char*) text, n) > C16_ATTR_NEST_CAP) { ++g_known[K_ATTRNEST]; return 0; }
 
   // exact-size heap copy; it outlives the parser (tokens and diagnostics point into it)
   char *buf = (char*) malloc(n + 1);
